@@ -102,7 +102,7 @@ func (g *G) quote() Notation {
 	return NSQ
 }
 
-var smallInts = []int{0, 0, 1, 1, 2, 3, -1, -1, -2, -3, 4, 5, 7, -7}
+var smallInts = []int{0, 0, 1, 1, 2, 3, -1, -1, -2, -3, 4, 5, 7, -7, 8, 10, 12, -10}
 var bigInts = []int{math.MaxInt64, math.MinInt64, math.MaxInt64 - 1, math.MinInt64 + 1, 1 << 31, -(1 << 31), 1<<31 - 1, 1 << 32, 1 << 62, -(1 << 62)}
 
 func (g *G) integer() int {
